@@ -230,10 +230,18 @@ func main() {
 				}()
 			}
 			go func() { wg.Wait(); close(done) }()
+			blocked := false
 			select {
 			case <-done:
-			case <-time.After(120 * time.Second):
-				viol("calls-blocked", fmt.Sprintf("%d goroutines", cfg.gor), "", "", "concurrent calls did not finish in 120 s")
+			case <-time.After(30 * time.Second):
+				viol("calls-blocked", fmt.Sprintf("%d goroutines, GOMAXPROCS %d", cfg.gor, cfg.procs), "concurrent calls did not finish in 30 s", "every call returns", "one registered registry, no registration in flight: no call may block on another")
+				blocked = true
+			}
+			if blocked {
+				// the goroutines are still running: their results must not be read; report what was found and stop
+				res.Rule = "run stopped: concurrent calls blocked"
+				res.Write(filepath.Join(*outDir, "result.json"))
+				os.Exit(0)
 			}
 			for i := range calls {
 				res.Evaluations++
